@@ -597,16 +597,18 @@ _extend("C04",
     scope="js_parser.go toAST 'Map locals to parts' (topLevelSymbolToParts: link following, the alias entries for merged symbols, NSExportPartIndex); graph.go AddPartToFile overlay / TopLevelSymbolToParts / GenerateSymbolImportAndUse / GenerateRuntimeSymbolImportAndUse; linker.go scanImportsAndExports: createWrapperForFile (step 4), createExportsForFile deps+uses, the SymbolCallUses loop, the const-value skip, the local-dependency loop with LocalPartsWithUses (step 5), the ImportsToBind loop incl. ReExports, the entry-point part, the import-record loop and the export-star loop (step 6) — modelled on the final tables (Impl/PartDeps.lean) against Spec/PartDeps.lean, tied through the partdeps observation hook on real builds; composed with Impl/Shake.lean",
     assumptions=["partdeps: the hook observes AFTER steps 4-6, so the final SymbolUses are an input and linker-added uses are checked to be among them; Dependencies/LocalPartsWithUses/TopLevelSymbolToParts compared as sets; wf (8 bits + xu) is evaluated by the driver on every real dump and was never violated; aliasOk is a separate hypothesis of soundness that real builds can violate (see open)"])
 
-# scope (C15): the parser's scope analysis (declare / hoist / lookup) (held back until the model follows the with/arguments fix)
-_HELD("C15",
-    lean_modules=["EsbuildModel.Props.C15Scopes", "EsbuildModel.Props.C15Redecl", "EsbuildModel.Props.C15Lookup"],
+# scope (C15): the parser's scope analysis (declare / hoist / lookup)
+_extend("C15",
+    lean_modules=["EsbuildModel.Props.C15Scopes", "EsbuildModel.Props.C15Redecl", "EsbuildModel.Props.C15Lookup", "EsbuildModel.Props.C15WithPin"],
     theorems=_thms("Scopes", "hoisted_tree_wellformed parser_tree_slots_separate_visible sibling_scopes_declare_disjoint_symbols "
                    "redeclaration_error_implies_early_error no_early_error_no_redeclaration_error redeclaration_errors_iff_early_error_partial "
-                   "lookup_agrees_with_spec_partial lookup_agrees_with_spec_partial_follow"),
+                   "lookup_agrees_with_spec_partial lookup_agrees_with_spec_partial_follow "
+                   "pinned_symbol_pins_merge_target with_pin_reaches_follow_partial var_in_with_body_flags_chain flagged_symbol_flags_chain with_reference_flags_chain hoisted_var_arguments_pins_variable"),
     kernels=[("scope", 30000, 600000)],
-    open=["Scopes.lookup_agrees_with_spec (every program of the fragment: var in nested blocks, Annex B block functions, classes, declarations of `arguments`): stated in Props/C15Lookup.lean under p.earlyError = false, dupBlockFnL = false, blockFnClashL = false; proved for flat programs only; the full statement is evaluated by checkProps on every `core` case of the kernel (0 counterexamples under the three hypotheses; each hypothesis is a reproduced esbuild/Node difference: known findings c15-scope-*)",
+    open=["Scopes.with_pin_reaches_follow: proved per walk / per reference for the whole link chain under ChainsEnd (no link cycle) and NoPassing (no catch parameter / `arguments` of the same name on the way); open: NoPassing (needs a pigeonhole lemma for the loop bound) and the lift to the final symbol table (links added by later walks and by relinkFns / lowerClass); not refuted (490 000 cases, programs in Props/C15WithPin.lean)",
+          "Scopes.lookup_agrees_with_spec (every program of the fragment: var in nested blocks, Annex B block functions, classes, declarations of `arguments`): stated in Props/C15Lookup.lean under p.earlyError = false, dupBlockFnL = false, blockFnClashL = false; proved for flat programs only; the full statement is evaluated by checkProps on every `core` case of the kernel (0 counterexamples under the three hypotheses; each hypothesis is a reproduced esbuild/Node difference: known findings c15-scope-*)",
           "Scopes.redeclaration_errors_iff_early_error for non-flat programs: stated in Props/C15Redecl.lean under moduleFnVarClash = false, argumentsClashL = false, catchFnClashL [] = false (each forced by a program with an early error that esbuild accepts: observations, esbuild's output is valid); direction error -> early error proved for every program, iff proved for flat programs"],
-    scope="internal/js_parser/js_parser.go: pushScopeForParsePass / popScope, declareSymbol + canMergeSymbols (whole table, non-TS), the arguments step of parseFn, the use-strict and class strictness steps, prepareForVisitPass (ESM strictness, hoistSymbols in full incl. sloppy block functions and the CommonJS symbols), pushScopeForVisitPass, findSymbol (with / eval flags, unbound symbols), the class name scope + lowerClass inner-name merge, the block-function relinking of visitStmts, labels — against Spec/JsScopes.lean (VarDeclaredNames / LexicallyDeclaredNames / early errors / Annex B.3.2-B.3.4 / ResolveBinding). The kernel compares the whole scope tree, symbol table (kind, name, link, MustNotBeRenamed), reference list and sorted error list, on generated source text through js_parser.Parse, on raw operation sequences and on the full canMergeSymbols table",
+    scope="internal/js_parser/js_parser.go: pushScopeForParsePass / popScope, declareSymbol + canMergeSymbols (whole table, non-TS), the arguments step of parseFn, the use-strict and class strictness steps, prepareForVisitPass (ESM strictness, hoistSymbols in full incl. sloppy block functions and the CommonJS symbols), pushScopeForVisitPass, findSymbol (with / eval flags, unbound symbols), the class name scope + lowerClass inner-name merge, the block-function relinking of visitStmts, labels, incl. the MustNotBeRenamed loops of the two with/arguments fix commits in hoistSymbols and findSymbol — against Spec/JsScopes.lean (VarDeclaredNames / LexicallyDeclaredNames / early errors / Annex B.3.2-B.3.4 / ResolveBinding). The kernel compares the whole scope tree, symbol table (kind, name, link, MustNotBeRenamed), reference list and sorted error list, on generated source text through js_parser.Parse, on raw operation sequences and on the full canMergeSymbols table",
     assumptions=["scope: one file, no TypeScript, no JSX; names are small integers; errors compared as a sorted multiset; use counts enter only through `the inner class name is referenced`; dead-code elimination that drops references is avoided by the generator; Spec early errors validated against Node 20 by the package author (4523/4523); flat = var/function declarations only at the top level of a function/script/module, no class declaration, nothing declares `arguments`"])
 
 # jsonrt (C13 / C01 / C16): the JSON parser and the lexer's JSON mode
@@ -684,3 +686,84 @@ _extend("C02",
           "Interop: the linker side (who passes isNodeMode, `__toESM(require_x(), 1)`, wrapper creation), `__require` and `__glob` are not covered"],
     scope="internal/runtime/runtime.go: the JavaScript text of __export, __copyProps, __reExport, __toESM, __toCommonJS, __esm, __esmMin, __commonJS, __commonJSMin — transcribed statement by statement on a heap model of JavaScript objects (Impl/Interop.lean) against Spec/ModuleInterop.lean (the documented default-export table); the kernel runs the REAL helper text from runtime.Source (modern and ES5 variants) in Node 20 on generated objects and compares event traces and descriptors",
     assumptions=["interop: objects are ordinary objects (no Proxy); keys are not names of built-in prototype properties; own name/length of the closures the helpers create are not modelled; the for-in loop of __export takes its keys when it starts and skips a key only if it has been deleted (V8's behaviour, forced by the kernel); recursion through getters and prototype chains is bounded by fuel"])
+
+# calc (C12): calc() simplification
+_extend("C12",
+    lean_modules=["EsbuildModel.Props.C12Calc"],
+    theorems=_thms("C12Calc", "simplify_preserves_value real_test_never_on_zero merged_constant_is_left_fold merged_units_distinct simplified_sum_units_distinct"),
+    kernels=[("calc", 4000, 60000)],
+    open=["C12Calc: float64 intermediate rounding is not related to the exact value (`calc(1e16px + 1px - 1e16px)` -> `0px`; observation); the printed decimals of n and fl(1/n) being exact reciprocals is a paper argument + harness check only",
+          "C12Calc.simplify_idempotent: FALSE of the code (`calc(2 * (min(1px,2px) * 0.5))` needs two runs; value preserved; observation); print_parse_roundtrip and no-panic on tokenizer-produced tokens are not proved (checked numerically with big rationals by the harness)"],
+    scope="internal/css_parser/css_reduce_calc.go in full (tryToReduceCalcExpression, tryToParseCalcTerm, partiallySimplify of calcSum / calcProduct / calcNegate / calcInvert, convertToToken of all node types, floatToStringForCalc) + strconv.ParseFloat on CSS numeric texts — against Spec/CssCalc.lean (calculation trees valued in any field, units and opaque leaves as indeterminates)",
+    assumptions=["calc: EqualFold = ASCII folding; ParseFloat for texts over 0-9+-.eE and inf/infinity/nan; the value theorem is over exact field arithmetic (any Lean.Grind.Field), the abstract reciprocal test only assumed never to fire on 0, which is proved of the float64 test"])
+
+# smchunk (C07): assembling the source map of a chunk
+_extend("C07",
+    lean_modules=["EsbuildModel.Props.C07Chunk"],
+    theorems=_thms("C07Chunk", "find_is_lookup builder_with_input_map_is_composition_partial builder_with_input_map_is_composition chunk_map_sources_consistent "
+                   "source_index_in_range sourcesContent_aligned names_follow_results relative_source_names_file other_sources_untouched quoted_contents_ascii_only quoted_contents_verbatim"),
+    kernels=[("smchunk", 1500, 20000)],
+    open=["SmChunk: totality of generateSourceMapForChunk as a whole; a per-segment theorem combining chunk_map_sources_consistent with C07Join.join_decodes; percent-encoding / query + fragment of file URLs; the caller's loop (null entries, OmitFromSourceMapsAndMetafile, ShouldIgnore) in generateChunkJS/CSS: not covered",
+          "SmChunk.builder_with_input_map_is_composition needs NoEmptyNames: an input map whose mapping refers to an EMPTY names entry makes esbuild drop the name instead of keeping the printer's name (`if originalName != \"\"` runs after the replacement); observation"],
+    scope="internal/sourcemap/sourcemap.go ChunkBuilder.appendMapping (Find lookup, remapping of source index / original line+column / name, namesMap + quotedNames) on top of the ChunkBuilder of Impl/SmJoin; internal/bundler/bundler.go computeDataForSourceMapsInParallel (QuotedContents per source, isASCIIOnly); internal/linker/linker.go generateSourceMapForChunk (sourceIndexToSourcesIndex / nextSourcesIndex, items, sources relative to the chunk directory, sourceRoot, sourcesContent, mappings loop, names) — against Spec/SourceMapCompose.lean (a map as a partial function, composition)",
+    assumptions=["smchunk: Go int / int32 never wrap; URL handling modelled as the identity only for file:// + absolute path over [A-Za-z0-9/._-] and for strings not starting with file: (anything else answers UNMODELLED on both sides); QuoteForJSON opaque with the stated ASCII-only guarantee; Unix real FS; the input map's mappings are sorted and its name indices in range (established by ParseSourceMap)"])
+
+# targets (C14): from the option text to the feature set
+_extend("C14",
+    lean_modules=["EsbuildModel.Props.C14Targets"],
+    theorems=_thms("C14Targets", "version_order_total version_line_strict_total compare_semver_respects_line range_membership js_closed_rows css_closed_rows "
+                   "engine_monotone css_engine_monotone multi_engine_is_intersection css_multi_engine_is_intersection css_ignores_non_browsers "
+                   "duplicate_engine_keeps_lowest prefix_emitted_iff prefix_antitone prefix_data_entries version_regex_is_modelled version_text_accepted_iff "
+                   "version_parts version_refused_iff engine_names_prefix_free engine_item engine_item_missing es_item es_year_arithmetic target_list_ok target_list_first_error"),
+    gen_facts=["TargetTables.lean"],
+    kernels=[("targets", 6000, 200000)],
+    open=["C14Targets.target_text_roundtrip (the printed target environment re-parses to the same constraints): not proved; checked by the kernel on every cliv operation",
+          "C14Targets: for duplicates of ONE engine the result is the feature set of the LOWEST version, not the intersection: `--target=node12.20,node13.1` keeps import() although esbuild's table says node 13.1 lacks it (closed-range rows of the Node column; known finding c14-duplicate-engine-keeps-lowest)"],
+    scope="pkg/cli/cli_impl.go splitWithEmptyCheck, parseTargets, the --supported: case; pkg/api/api_impl.go versionRegex, validateFeatures, validateSupported; pkg/api/api_js_table.go convertEngineName; internal/compat/compat.go Semver.String, CompareSemver, splitOffNextPreReleasePart, preReleasePartToNumber; internal/compat/css_table.go UnsupportedCSSFeatures, CSSPrefixData; config.PrettyPrintTargetEnvironment; tables regenerated (css_table.go cssTable / cssPrefixTable / feature bits, StringToJS/CSSFeature, Engine.String, IsBrowser, cli validEngines, validTargets, the ES switch of validateFeatures, the regex text)",
+    assumptions=["targets: text = list of code points; strings.ToLower modelled as ASCII lower-casing plus U+212A and U+0130; Go int is 64 bit; error messages compared as a sorted list; the Go map iteration order is irrelevant (engine_names_prefix_free; masks are ORs)"])
+
+# identlex (C01 / C13 / C15): identifiers
+_IDENT_SCOPE = ("internal/js_lexer/js_lexer.go: identifier arms of (*Lexer).Next (byte fast path, slow path, Keywords lookup, the backslash arm, '#' arm), scanIdentifierWithEscapes (both passes, Invalid identifier, TEscapedKeyword), Keywords / StrictModeReservedWords (regenerated); internal/js_ast/js_ident.go IsIdentifier(ES5AndESNext)(UTF16), IsIdentifierStart/Continue, ForceValidIdentifier; internal/js_printer QuoteIdentifier, canPrintIdentifier(UTF16), printIdentifier(UTF16) — against Spec/JsIdentifier.lean (ECMA-262 12.7); the identifier range tables and keyword tables are regenerated from the real packages (Gen/IdentTables.lean)")
+_extend("C01",
+    lean_modules=["EsbuildModel.Props.C01IdentLex", "EsbuildModel.Props.C01IdentSound", "EsbuildModel.Props.C13IdentPrint"],
+    theorems=["EsbuildModel.Props.C01IdentSound.lex_identifier_value_partial", "EsbuildModel.Props.C01IdentSound.surrogate_pair_escapes_accepted",
+              "EsbuildModel.Props.C01IdentLex.lex_identifier_complete", "EsbuildModel.Props.C01IdentLex.lex_identifier_complete_spec",
+              "EsbuildModel.Props.C01IdentLex.keyword_tables_consistent", "EsbuildModel.Props.C01IdentLex.keyword_tokens",
+              "EsbuildModel.Props.C01IdentLex.force_valid_identifier", "EsbuildModel.Props.C01IdentLex.force_valid_identifier_spec",
+              "EsbuildModel.Props.C01IdentLex.force_valid_identifier_prefix",
+              "EsbuildModel.Props.C13IdentPrint.print_identifier_roundtrip", "EsbuildModel.Props.C13IdentPrint.print_identifier_utf16_roundtrip",
+              "EsbuildModel.IdentLex.gen_agree", "EsbuildModel.IdentLex.gen_both_subset"],
+    gen_facts=["IdentTables.lean"],
+    binaries=["identtables"],
+    kernels=[("identlex", 20000, 150000)],
+    open=["IdentLex.lex_identifier_value at full strength: FALSE of the code — two escapes that each denote a surrogate half are joined before IsIdentifier looks at them, so `var \\uD835\\uDC9C = 1` is accepted (ECMA-262 12.7.1.1 makes each escape a Syntax Error; V8 rejects) and printed as `\\u{1D49C}`; the output is valid, so this is an accepts-invalid observation; theorem surrogate_pair_escapes_accepted",
+          "IdentLex: soundness for #private names, printSpaceBeforeIdentifier, 'a rejected name is never printed bare' (caller pattern) and the link NumberToMinifiedName never yields a keyword are covered by the kernel only"],
+    scope=_IDENT_SCOPE,
+    assumptions=["identlex: source text and Go strings are well-formed UTF-8; Agree: the generated range tables = the spec's ID_Start / ID_Continue from U+007F on plus three UCD facts (met by the regenerated tables: gen_agree); the tables themselves are a regenerated fact, not proved equal to any Unicode version"])
+
+# chunknames (C15): renameSymbolsInChunk
+_extend("C15",
+    lean_modules=["EsbuildModel.Props.C15ChunkNames"],
+    theorems=_thms("ChunkNames", "import_is_top_ref wrapper_is_top_ref live_top_level_declaration_is_top_ref cjs_hoisted_external_import_is_top_ref "
+                   "cjs_module_scope_is_started live_part_scope_is_started chunk_names_injective_where_visible_number no_capture_of_free_globals_number "
+                   "cross_chunk_import_has_own_name_number unrenamed_when_possible minified_names_differ_of_slots_differ chunk_names_injective_where_visible_minify "
+                   "no_capture_of_free_globals_minify minified_label_not_keyword pinned_symbol_keeps_name_minify cross_chunk_import_has_own_slot_minify "
+                   "rename_deterministic_imports resolve_members_perm sorted_top_level_array_perm accumulate_calls_commute rename_deterministic_symbol_uses "
+                   "hypWF_iff hypSlots_spec hypImports_spec"),
+    kernels=[("chunknames", 400, 20000)],
+    open=["ChunkNames rename_deterministic: commutation of Slots.assignRecList over the nested scope lists of different files (goroutines of AssignNamesByScope) is tested, not proved",
+          "ChunkNames chunk_names_injective_where_visible_minify takes hnested / hbelow as hypotheses: the composition with the per-file Slots theorems (different symbol numbering) is not proved; hbelow is checked by the driver on every real chunk"],
+    scope="internal/linker/linker.go renameSymbolsInChunk (reserved names, sortedImportsFromOtherChunks, MinifyRenamer branch: firstTopLevelSlots, AccumulateSymbolCount calls, AllocateTopLevelSymbolSlots, AssignNamesByFrequency; NumberRenamer branch: AddTopLevelSymbol for cross-chunk imports, wrapper refs, hoisted external import bindings, top-level declarations of live parts, nestedScopes + AssignNamesByScope); internal/renamer/renamer.go ComputeReservedNames, MinifyRenamer, NumberRenamer, StableSymbolCountArray.Less; ast.FollowSymbols — modelled (Impl/ChunkNames.lean, reusing Impl/Slots.lean and Impl/Rename.lean) and tied through the chunk-names observation hook on real api.Build runs, one operation per JS chunk",
+    assumptions=["chunknames: the hook numbers refs densely by (StableSourceIndex, InnerIndex) and gives part.Scopes as child-index paths; the minifier alphabets (after ShuffleByCharFreq) are inputs; ASCII names only; uint32 count wrap-around ignored; the parallel phases are run sequentially in file order; the driver checks the hypotheses wf / slots / imp on every real chunk"])
+
+# regexlex (C13 / C14): regular-expression literals
+_extend("C13",
+    lean_modules=["EsbuildModel.Props.C13RegexLex", "EsbuildModel.Props.C14RegexFeat"],
+    theorems=_thms("C13RegexLex", "scan_regexp_is_grammar scan_regexp_complete scan_regexp_sound regexp_token_unique regexp_token_longest regexp_body_nonempty printed_regexp_relexes regexp_to_string_roundtrip")
+             + _thms("C14RegexFeat", "feature_scan_sound feature_scan_complete_partial class_property_escape_missed body_has_reading"),
+    kernels=[("regexlex", 4000, 200000)],
+    open=["C14RegexFeat.feature_scan_complete (every property escape under u/v is noticed): FALSE of the code: the class loop skips every escape, so `/[\\p{L}]/u` is kept under es2015..es2017 (known finding c14-es5-and-regexp-leaks), and only the u flag is looked at, not v; proved: feature_scan_complete_partial (top-level shapes) + class_property_escape_missed",
+          "regexlex: `/[</script]/` is printed verbatim (`</script` inside a class) although strings and `a< /script/` are protected: observation, outside printed_regexp_relexes (which is about lexing)",
+          "regexlex: message texts, ill-formed UTF-8 in the source, and the whole-parser decision that a `/` is in prefix position (covered by kernel prec) are not modelled"],
+    scope="internal/js_lexer/js_lexer.go: the `/` arm of (*Lexer).Next and (*Lexer).ScanRegExp in full (validateAndStep, class loop, flags loop, duplicate-flag error, the u/v exclusivity error, SyntaxError); internal/js_parser/js_parser.go: isUnsupportedRegularExpression and the ERegExp arm of visitExprInOut (new RegExp(pattern[, flags])); internal/js_printer/js_printer.go: the ERegExp arm of printExpr (space after `/`, space between `<` and `/script`), printSpaceBeforeIdentifier (prevRegExpEnd) — against Spec/JsRegExpLiteral.lean (ECMA-262 12.9.5, flag early errors, 13.2.7.3); composed with Quote.decode_print",
+    assumptions=["regexlex: the source is well-formed UTF-8; TableAgrees: Unicode ID_Continue below U+007F is [A-Za-z0-9_] and esbuild's table is Unicode's from U+007F on (the kernel passes the table values of the code points it uses); RegExp in `new RegExp` is the intrinsic; Spec.JsRegExpLiteral is the package author's reading of ECMA-262"])
